@@ -1,10 +1,31 @@
 //! Operation dispatch: every property module gets a chance to claim the op name.
 pub mod c01;
+pub mod c02;
+pub mod c02_table;
+pub mod c16;
+pub mod c17;
+pub mod c19;
+pub mod c20;
 
 use crate::tree::Tree;
 
 pub fn dispatch(op: &str, input: &Tree) -> Result<Tree, String> {
     if let Some(r) = c01::dispatch(op, input) {
+        return r;
+    }
+    if let Some(r) = c19::dispatch(op, input) {
+        return r;
+    }
+    if let Some(r) = c02::dispatch(op, input) {
+        return r;
+    }
+    if let Some(r) = c16::dispatch(op, input) {
+        return r;
+    }
+    if let Some(r) = c20::dispatch(op, input) {
+        return r;
+    }
+    if let Some(r) = c17::dispatch(op, input) {
         return r;
     }
     Err(format!("unknown op {op}"))
